@@ -1030,6 +1030,8 @@ def istypeddict(obj: tp.Any) -> bool:
         >>> istypeddict(FooMap)
         True
     """
+    # (A parameterised generic `TypedDict` is an alias of the class.)
+    obj = tp.get_origin(obj) or obj
     return (
         inspect.isclass(obj)
         and dict in {*inspect.getmro(obj)}
@@ -1085,6 +1087,8 @@ def istypedtuple(obj: type) -> compat.TypeIs[type[tp.NamedTuple]]:
         >>> istypedtuple(FooTup)
         True
     """
+    # (A parameterised generic `NamedTuple` is an alias of the class.)
+    obj = tp.get_origin(obj) or obj
     return (
         inspect.isclass(obj)
         and issubclass(obj, tuple)
@@ -1103,6 +1107,7 @@ def isnamedtuple(obj: type) -> compat.TypeIs[type[tp.NamedTuple]]:
         >>> isnamedtuple(FooTup)
         True
     """
+    obj = tp.get_origin(obj) or obj
     return inspect.isclass(obj) and issubclass(obj, tuple) and hasattr(obj, "_fields")
 
 
